@@ -585,6 +585,14 @@ example :
 /-- a single oversized message goes out when nothing is outstanding -/
 example : (run {} [.setFc 2 10, .loop, .query [(1, 40), (2, 3)]]).pending = [(1, 40)] := by decide
 
+/-- the model's `refresh` is one atomic step that removes what is settled in the database and was not
+    sent again since; in the source the refresher takes the list of pending ids, asks the database, and
+    applies the answer to *that list* (regenerated) — entries the sender books while the query is
+    under way are not in the list and stay, which is what makes the atomic step a sound abstraction
+    (a refresher that walks the live map instead deletes them: the scheduled run `bound-refresh-race`
+    of the harness exhibits the bound being broken) -/
+theorem C11_refresh_applies_to_snapshot : Extracted.streamerRefreshApplies = ["ids"] := by decide
+
 /-- **C11 (the sender's fetch does not sleep through a change)**: the sender of a streaming pull
     fetches through the same wait loop as a Pull (`GetSubscriptionMessages.execute`): it registers for
     wake-ups *before* it queries (regenerated from the source), so — by the wake-up protocol's
